@@ -133,6 +133,11 @@ def h_concrete_overrank(ctx):
             F = teneva.full(T)
             ok = ok and bool(np.linalg.norm(teneva.full(Z) - F) <= 1e-6 * np.linalg.norm(F))
             same = same and all(np.array_equal(a_, b_) for a_, b_ in zip(snap, (I, idx, idm, y)))
+            if cap < 1e11 and seed < 2:
+                # the cap as a NumPy integer (e.g. the maximum of a rank array) or a float: the same limit
+                for capk in (np.int64(cap), np.int32(cap), float(cap), np.max(np.array([1, int(cap)]))):
+                    Zk = teneva.svd_incomplete(I, y, idx, idm, e=1e-10, r=capk)
+                    wf = wf and well_formed(Zk, n) and all(G.shape[2] <= cap for G in Zk)
             if seed == 0:
                 # the same sample set used for another tensor, without a cap
                 T2 = teneva.rand(n, m if isinstance(rho, int) else max(rho), seed=300)
